@@ -51,8 +51,12 @@ if conf.get('patch_applies'):
     finally:
         subprocess.check_call(['git', '-C', '/repo', 'checkout', '--', '.'])
         shutil.rmtree('/verif/evidence'); shutil.copytree(bk + '/evidence', '/verif/evidence'); shutil.rmtree(bk)
+if 'baseline_missing' not in conf and 'confirmed_by_us' in meta and 'baseline_missing' in meta['confirmed_by_us']:
+    conf['baseline_missing'] = meta['confirmed_by_us']['baseline_missing']
 meta['confirmed_by_us'] = conf
-meta['checks_run'] = caught
-meta['caught_by'] = [p for p, v in caught.items() if v['exit'] == 1]
+prev = dict(meta.get('checks_run') or {})
+prev.update(caught)
+meta['checks_run'] = prev
+meta['caught_by'] = sorted(p for p, v in prev.items() if v['exit'] == 1)
 json.dump(meta, open(os.path.join(dst, 'meta.json'), 'w'), indent=1)
 print(json.dumps(dict(confirmation=conf, caught={p: (v['exit'], v['violations'][:2]) for p, v in caught.items()}), indent=1)[:1800])
